@@ -119,9 +119,9 @@ CHECKS['C04'] = dict(level='exploration',
     design='DESIGN.md §2 C04')
 
 CHECKS['C01'] = dict(level='translation_validation',
-    technique='runtime monitoring with a reference compiler as oracle: every generated program and its formatted version are compiled with the same compiler and flags (gcc/g++ -O1 -S on stdin, javac -g:none) and the object code compared (per-instance translation validation)',
-    text='Grammar-generated compilable programs (C, C++17, Java) made of a hand-written preamble (includes to sort over generated headers, macros incl. multi-line, #if 0 branches, enums with/without trailing comma, every int-keyword spelling, extra semicolons, empty returns, all infinite-loop forms, bit-fields, designated initialisers, templates incl. >>, lambdas, range-for, ctor initialisers, try/catch/finally, synchronized) and generated functions (every statement kind, braceless bodies, nested blocks, pointer/unary chains next to binary operators such as a / *q1, a - -b, a & *&b, own-line comments; hostile layout) are formatted under every non-excluded option singly at every swept non-default value (about 2100 option=value configs in a covering design: each meets 2 (quick) / 8 (thorough) programs) and under joint draws over all non-excluded options. uncrustify must exit 0, the output must compile, and the assembly (minus .file/.ident) or class files must be identical to those of the input. Programs the compiler rejects are discarded and counted; distinct outputs are compiled once.',
-    note='Trusted: gcc/g++/javac as the semantics oracle at one optimisation level and target; the excluded configurations are those the statement excludes plus the two error-policy options. Objective-C is not compiled.',
+    technique='runtime monitoring with a reference compiler as oracle: every generated program and its formatted version are compiled with the same compiler and flags (gcc/g++/clang -O1 -S on stdin, javac -g:none) and the object code compared (per-instance translation validation)',
+    text='Grammar-generated compilable programs (C, C++17, Java, Objective-C) made of a hand-written preamble (includes to sort over generated headers, macros incl. multi-line, #if 0 branches, enums with/without trailing comma, every int-keyword spelling, extra semicolons, empty returns, all infinite-loop forms, bit-fields, designated initialisers, templates incl. >>, lambdas, range-for, ctor initialisers, try/catch/finally, synchronized) and generated functions (every statement kind, braceless bodies, nested blocks, pointer/unary chains next to binary operators such as a / *q1, a - -b, a & *&b, own-line comments; hostile layout) are formatted under every non-excluded option singly at every swept non-default value (about 2100 option=value configs in a covering design: each meets 2 (quick) / 8 (thorough) programs) and under joint draws over all non-excluded options. uncrustify must exit 0, the output must compile, and the assembly (minus .file/.ident) or class files must be identical to those of the input. Programs the compiler rejects are discarded and counted; distinct outputs are compiled once.',
+    note='Trusted: gcc/g++/clang/javac as the semantics oracle at one optimisation level and target; the excluded configurations are those the statement excludes plus the two error-policy options.',
     design='DESIGN.md §2 C01')
 
 ALL = ['C%02d' % i for i in range(1, 21)]
